@@ -209,7 +209,7 @@ VectorWidths == {"2", "4", "8", "16"}
 IsVectorDouble(txt) == Len(txt) > 6 /\ SubSeq(txt, 1, 6) = "double" /\ Rest(txt, 7) \in VectorWidths
 IsTypeTok(t) == t.cls = "id" /\ (t.txt = "double" \/ IsVectorDouble(t.txt))
 \* the class of a token of the double-precision source, as reported in a verdict
-TokClass0(t) ==
+TokClass(t) ==
     CASE t.cls = "num" ->
             LET n == NumInfo(t.txt) IN
             IF n.kind = "decfloat" /\ n.suffix = ""
@@ -228,7 +228,6 @@ TokClass0(t) ==
       [] t.cls = "punct" -> "punctuator"
       [] t.cls = "eod" -> "directive-end"
       [] OTHER -> t.cls
-TokClass(t) == IF "spl" \in DOMAIN t /\ t.spl THEN "spliced-" \o TokClass0(t) ELSE TokClass0(t)
 
 \* Well-formed input (the property quantifies over well-formed C): every token is a token of C
 \* (no unterminated literal, every pp-number is a constant) and the token sequence does not
@@ -260,8 +259,8 @@ ConvTok(t, k, prec) ==
     ELSE IF t.cls = "id" /\ IsVectorDouble(t.txt)      \* OpenCL floatn; "long doublen" as for the scalar
     THEN (IF prec = 32 THEN <<Tok("id", "float" \o Rest(t.txt, 7), k, t.bol)>>
           ELSE <<Tok("id", "long", k, t.bol), Tok("id", t.txt, k, FALSE)>>)
-    ELSE IF t.cls = "num" /\ NumInfo(t.txt).suffix = ""
-            /\ (NumInfo(t.txt).kind = "decfloat" \/ (TagHexFloats /\ NumInfo(t.txt).kind = "hexfloat"))
+    ELSE IF t.cls = "num" /\ (LET n == NumInfo(t.txt) IN
+                              n.suffix = "" /\ (n.kind = "decfloat" \/ (TagHexFloats /\ n.kind = "hexfloat")))
     THEN <<Tok("num", t.txt \o LitFlag(prec), k, t.bol)>>
     ELSE <<Tok(t.cls, t.txt, k, t.bol)>>
 
